@@ -11,6 +11,7 @@ import (
 	"math/big"
 	"os"
 	"path/filepath"
+	"runtime"
 	"sort"
 	"sync"
 	"testing"
@@ -43,6 +44,8 @@ const (
 	SPark     = 39 // pos : the next store operation parks at 1 before put 2 after put 3 before delete 4 after delete
 	SFailRel  = 40 // pod flag : releasing this pod's allocation fails at the interface
 	SRecreate = 44 // pod : the pod object is replaced by a new instance of the same name (new uid)
+	SGCRace   = 45 // pod rid cid : a GC pass; right after the API has answered its question about this pod (parked on the way back)
+	//                          the pod is created again under its name and the ADD of the new sandbox arrives; then the answer is delivered
 	// observations
 	EReplyRPC = 41 // rid kind code eni a4 a6   (kind 1 add 2 del 3 get; code 0 ok 1 processing 2 error)
 	EStore    = 42 // op pod cid eni a4 a6       (op 1 put-begin 2 put-done 3 delete-begin 4 delete-done)
@@ -59,6 +62,9 @@ type fakeK8s struct {
 	mu     sync.Mutex
 	pods   map[int]*podState
 	apiErr bool
+	// PodExist for parkPod computes its answer, signals parkIn and waits for parkGate before returning it
+	parkPod          int
+	parkIn, parkGate chan struct{}
 }
 
 func (f *fakeK8s) info(p int, st *podState) *daemon.PodInfo {
@@ -103,7 +109,16 @@ func (f *fakeK8s) PodExist(namespace, name string) (bool, error) {
 		return false, fmt.Errorf("injected: api server unavailable")
 	}
 	st, ok := f.pods[podOf(name)]
-	return ok && !st.gone, nil
+	ans := ok && !st.gone
+	if f.parkGate != nil && f.parkPod == podOf(name) {
+		g := f.parkGate
+		f.parkGate = nil
+		close(f.parkIn)
+		f.mu.Unlock()
+		<-g
+		f.mu.Lock()
+	}
+	return ans, nil
 }
 func (f *fakeK8s) GetServiceCIDR() *types.IPNetSet                       { return &types.IPNetSet{} }
 func (f *fakeK8s) PatchPodIPInfo(info *daemon.PodInfo, ips string) error { return nil }
@@ -235,18 +250,19 @@ func openStore(path string) (storage.Storage, error) {
 // ---- one scripted run -----------------------------------------------------------------------------
 
 type run struct {
-	w      *pool.World
-	k      *fakeK8s
-	st     *recStore
-	svc    rpc.TerwayBackendServer
-	dir    string
-	gen    int
-	cans   map[int]context.CancelFunc
-	imu    sync.Mutex
-	busy   int // RPCs without a reply yet
-	v4     bool
-	v6     bool
-	uidGen map[int]int
+	w         *pool.World
+	k         *fakeK8s
+	st        *recStore
+	svc       rpc.TerwayBackendServer
+	dir       string
+	gen       int
+	cans      map[int]context.CancelFunc
+	imu       sync.Mutex
+	busy      int // RPCs without a reply yet
+	v4        bool
+	v6        bool
+	uidGen    map[int]int
+	noQuiesce bool
 }
 
 func (r *run) snapshotStore() []int {
@@ -270,9 +286,12 @@ func (r *run) newService() {
 	r.svc = terwaydaemon.VerifNewService(r.k, r.st, r.w.Mgr, r.v4, r.v6)
 }
 
-func (r *run) rpcCall(kind, rid, pod, cid int) {
+func (r *run) rpcCall(kind, rid, pod, cid int, pre ...bool) {
 	parent := r.w.Ctx()
 	ctx, cancel := context.WithCancel(parent)
+	if len(pre) > 0 && pre[0] {
+		cancel()
+	}
 	r.cans[rid] = cancel
 	r.w.BG().Add(1)
 	svc, w := r.svc, r.w
@@ -328,7 +347,9 @@ func (r *run) rpcCall(kind, rid, pod, cid int) {
 		}
 		w.Ev(rec...)
 	}()
-	r.w.Quiesce()
+	if !r.noQuiesce {
+		r.w.Quiesce()
+	}
 }
 
 func (r *run) crash() error {
@@ -415,7 +436,11 @@ func eval(t *testing.T) func(in []*big.Int) ([]*big.Int, []*big.Int) {
 						}
 						r.k.mu.Unlock()
 						w.Ev(rec[0], rec[1], rec[2], rec[3])
-						r.rpcCall(rec[0]-30, rec[1], rec[2], rec[3])
+						pre := rec[0] == SAdd && len(rec) > 4 && rec[4] != 0
+						if pre {
+							w.Ev(pool.RCancel, rec[1])
+						}
+						r.rpcCall(rec[0]-30, rec[1], rec[2], rec[3], pre)
 					case SGC:
 						// gcPods takes the service's write lock; a goroutine parked on a sync.RWMutex is not durably
 						// blocked for synctest, so a pass is only started when no RPC holds the read lock
@@ -440,6 +465,59 @@ func eval(t *testing.T) func(in []*big.Int) ([]*big.Int, []*big.Int) {
 								w.Ev(EGCDone, code)
 							}
 						}()
+						w.Quiesce()
+					case SGCRace:
+						r.imu.Lock()
+						busy := r.busy
+						r.imu.Unlock()
+						if busy > 0 {
+							continue
+						}
+						pod := rec[1]
+						r.k.mu.Lock()
+						in, gate := make(chan struct{}), make(chan struct{})
+						r.k.parkPod, r.k.parkIn, r.k.parkGate = pod, in, gate
+						r.k.mu.Unlock()
+						w.Ev(SGC)
+						svc := r.svc
+						w.BG().Add(1)
+						gctx := w.Ctx()
+						gcDone := make(chan struct{})
+						go func() {
+							defer w.BG().Done()
+							defer close(gcDone)
+							err := terwaydaemon.VerifGC(gctx, svc)
+							code := 0
+							if err != nil {
+								code = 1
+							}
+							if gctx.Err() == nil {
+								w.Ev(EGCDone, code)
+							}
+						}()
+						select {
+						case <-in:
+							// the API has said what it knows about the pod; the answer is on its way back to the GC pass
+							r.k.mu.Lock()
+							r.uidGen[pod]++
+							r.k.pods[pod] = &podState{uid: fmt.Sprintf("uid-%d-g%d", pod, r.uidGen[pod])}
+							r.k.mu.Unlock()
+							w.Ev(SRecreate, pod)
+							w.Ev(SAdd, rec[2], pod, rec[3])
+							r.noQuiesce = true
+							r.rpcCall(1, rec[2], pod, rec[3])
+							r.noQuiesce = false
+							// no synctest.Wait here: the ADD may be parked on the service's RWMutex, which is not a durable block
+							for i := 0; i < 3000; i++ {
+								runtime.Gosched()
+							}
+							close(gate)
+							<-gcDone
+						case <-gcDone: // the pass had no question about this pod
+							r.k.mu.Lock()
+							r.k.parkGate = nil
+							r.k.mu.Unlock()
+						}
 						w.Quiesce()
 					case SPodGone, SPodExit:
 						r.k.mu.Lock()
@@ -552,6 +630,11 @@ func genCase(r *hx.Rand, prop string) []*big.Int {
 		switch {
 		case x < 28:
 			rid++
+			if prop != "C05" && r.Chance(1, 10) {
+				// the caller has given up before the daemon starts on the request (context already cancelled)
+				recs = append(recs, []int{SAdd, rid, pod, cid, 1})
+				break
+			}
 			recs = append(recs, []int{SAdd, rid, pod, cid})
 			cidOf[pod] = cid
 			open = append(open, rid)
@@ -594,6 +677,12 @@ func genCase(r *hx.Rand, prop string) []*big.Int {
 					}
 				case 3:
 					recs = append(recs, []int{SPodGone, pod})
+					if prop == "C09" && cidOf[pod] != 0 && r.Chance(1, 2) {
+						// the pod comes back under its name while the GC pass that found it gone is still running
+						rid++
+						cidOf[pod]++
+						recs = append(recs, []int{SGCRace, pod, rid, cidOf[pod]})
+					}
 				case 4:
 					recs = append(recs, []int{SPodExit, pod})
 				default:
